@@ -8,6 +8,14 @@ import time
 import traceback
 
 
+def _warmup():
+    """Import bempp_cl and build one tiny grid (compiles the jitclasses)."""
+    import numpy as np
+    import bempp_cl.api
+
+    bempp_cl.api.Grid(np.array([[0.0, 1, 0], [0, 0, 1], [0, 0, 0]]), np.array([[0], [1], [2]], dtype="uint32"))
+
+
 def main():
     prop, spec_file, out_file = sys.argv[1:4]
     spec = json.load(open(spec_file))
@@ -18,9 +26,13 @@ def main():
 
         mod = importlib.import_module("props." + prop.lower())
         stats = pbt.Stats()
-        deadline = t0 + float(spec.get("budget_s", 1e9))
         if hasattr(mod, "setup"):
             mod.setup(spec)
+        if not getattr(mod, "NO_BEMPP_WARMUP", False):
+            _warmup()
+        out["setup_s"] = time.time() - t0
+        # the budget clock starts after import/JIT warm-up
+        deadline = time.time() + float(spec.get("budget_s", 1e9))
         if "replay" in spec:
             for item in spec["replay"]:
                 fn = mod.CHECKS[item["check"]]
